@@ -100,4 +100,294 @@ theorem localStep_spec {sf prio epoch : Nat} {v : Invo} {a : Act} {sf' : Nat} {v
       | (split <;> omega)
       | (split <;> split <;> omega)
 
+theorem wf_init (cap n : Nat) : WF (init cap n) := by
+  refine ⟨Nat.le_refl _, ?_, ?_⟩
+  · have : sumBy holdW (List.replicate n ({} : Invo)) = 0 :=
+      sumBy_replicate_zero holdW {} (by decide) n
+    simp [init, holders, this]
+  · intro v hv
+    have := List.eq_of_mem_replicate hv
+    subst this
+    show Good 0 0 ({} : Invo)
+    decide
+
+theorem run_nil (s : State) : run s [] = some s := rfl
+
+theorem run_cons (s : State) (e : Event) (es : List Event) :
+    run s (e :: es) = (step s e).bind (fun s1 => run s1 es) := by
+  simp only [run, runGen, step]; cases stepGen true s e <;> rfl
+
+theorem wf_step {s s' : State} {e : Event} (hw : WF s) (h : step s e = some s') : WF s' := by
+  obtain ⟨h1, h2, h3⟩ := hw
+  cases e with
+  | doPrio =>
+    simp [step, stepGen] at h; subst h
+    exact ⟨by simp; omega, by simpa [holders] using h2, fun v hv => good_doPrio (h3 v hv)⟩
+  | donePrio =>
+    simp [step, stepGen] at h; obtain ⟨hlt, rfl⟩ := h
+    exact ⟨by simp; omega, by simpa [holders] using h2, h3⟩
+  | silenceElapsed =>
+    simp [step, stepGen] at h; obtain ⟨hlt, rfl⟩ := h
+    exact ⟨by simp; omega, by simpa [holders] using h2, fun v hv => good_silence (h3 v hv)⟩
+  | inv i a =>
+    simp only [step, stepGen] at h
+    split at h
+    · cases h
+    · rename_i v hv
+      split at h
+      · cases h
+      · rename_i sf v' hl
+        cases h
+        have hm := List.mem_of_getElem? hv
+        obtain ⟨g1, g2, _⟩ := localStep_spec hl (h3 v hm)
+        refine ⟨h1, ?_, ?_⟩
+        · have := sumBy_set holdW s.invs i v v' hv
+          simp only [holders] at h2 ⊢; omega
+        · intro w hw
+          rcases List.mem_or_eq_of_mem_set hw with hw | hw
+          · exact h3 w hw
+          · subst hw; exact g1
+
+theorem wf_run {s s' : State} {es : List Event} (hw : WF s) (h : run s es = some s') : WF s' := by
+  induction es generalizing s with
+  | nil => simp [run_nil] at h; subst h; exact hw
+  | cons e es ih =>
+    rw [run_cons] at h
+    cases h1 : step s e with
+    | none => simp [h1] at h
+    | some s1 => simp [h1] at h; exact ih (wf_step hw h1) h
+
+/-- States reachable from the initial state by ANY sequence of events (any interleaving). -/
+def Reachable (cap n : Nat) (s : State) : Prop := ∃ es, run (init cap n) es = some s
+
+theorem Reachable.wf {cap n : Nat} {s : State} (h : Reachable cap n s) : WF s := by
+  obtain ⟨es, h⟩ := h
+  exact wf_run (wf_init cap n) h
+
+theorem run_append {s s1 : State} {es : List Event} (h : run s es = some s1) (fs : List Event) :
+    run s (es ++ fs) = run s1 fs := by
+  induction es generalizing s with
+  | nil => simp [run_nil] at h; subst h; rfl
+  | cons e es ih =>
+    rw [List.cons_append, run_cons]
+    rw [run_cons] at h
+    cases h2 : step s e with
+    | none => simp [h2] at h
+    | some s2 => simp [h2] at h; simpa using ih h
+
+theorem Reachable.next {cap n : Nat} {s s' : State} {e : Event} (h : Reachable cap n s)
+    (hs : step s e = some s') : Reachable cap n s' := by
+  obtain ⟨es, h⟩ := h
+  refine ⟨es ++ [e], ?_⟩
+  rw [run_append h, run_cons, hs]
+  rfl
+
+theorem cap_step {s s' : State} {e : Event} (h : step s e = some s') : s'.cap = s.cap := by
+  cases e <;> simp only [step, stepGen] at h
+  · cases h; rfl
+  · split at h <;> cases h; rfl
+  · split at h <;> cases h; rfl
+  · split at h
+    · cases h
+    · split at h <;> cases h; rfl
+
+theorem Reachable.cap_eq {cap n : Nat} {s : State} (h : Reachable cap n s) : s.cap = cap := by
+  obtain ⟨es, h⟩ := h
+  suffices ∀ (s0 : State), run s0 es = some s → s.cap = s0.cap from this _ h
+  intro s0 h
+  induction es generalizing s0 with
+  | nil => simp [run_nil] at h; subst h; rfl
+  | cons e es ih =>
+    rw [run_cons] at h
+    cases h1 : SV.Task.step s0 e with
+    | none => simp [h1] at h
+    | some s1 => simp [h1] at h; rw [ih s1 h, cap_step h1]
+
+/-! ### consequences of the invariant -/
+
+theorem aliveN_le_holdW {epoch prio : Nat} {v : Invo} (h : Good epoch prio v) :
+    v.aliveN ≤ holdW v ∧ (holds v.pc = false → v.aliveN = 0) := by
+  obtain ⟨pc, cur, orph, canc⟩ := v
+  obtain ⟨ho, hg⟩ := h
+  simp only at ho; subst ho
+  cases pc <;> cases cur <;> simp_all [holdW, holds, Invo.aliveN]
+
+theorem wf_safe {s : State} (hw : WF s) : Safe s := by
+  obtain ⟨_, h2, h3⟩ := hw
+  refine ⟨?_, ?_⟩
+  · have := sumBy_le Invo.aliveN holdW s.invs (fun v hv => (aliveN_le_holdW (h3 v hv)).1)
+    simp only [aliveTotal, holders] at *; omega
+  · intro v hv
+    have := aliveN_le_holdW (h3 v hv)
+    refine ⟨?_, this.2⟩
+    have h1 := this.1
+    unfold holdW at h1
+    split at h1 <;> omega
+
+/-! ### progress -/
+
+theorem wt_silence (epoch prio : Nat) (v : Invo) : wt epoch (prio - 1) v ≤ wt epoch prio v := by
+  unfold wt
+  split <;> first
+    | omega
+    | (split <;> split <;> omega)
+
+theorem mu_step {s s' : State} {e : Event} (hw : WF s) (he : e ≠ .doPrio)
+    (h : step s e = some s') : mu s' < mu s := by
+  obtain ⟨h1, h2, h3⟩ := hw
+  cases e with
+  | doPrio => exact absurd rfl he
+  | donePrio =>
+    simp [step, stepGen] at h; obtain ⟨hlt, rfl⟩ := h
+    simp only [mu]; omega
+  | silenceElapsed =>
+    simp [step, stepGen] at h; obtain ⟨hlt, rfl⟩ := h
+    have := sumBy_le (wt s.epoch (s.prio - 1)) (wt s.epoch s.prio) s.invs
+      (fun v _ => wt_silence s.epoch s.prio v)
+    simp only [mu]; omega
+  | inv i a =>
+    simp only [step, stepGen] at h
+    split at h
+    · cases h
+    · rename_i v hv
+      split at h
+      · cases h
+      · rename_i sf v' hl
+        cases h
+        have hm := List.mem_of_getElem? hv
+        obtain ⟨_, _, g3⟩ := localStep_spec hl (h3 v hm)
+        have := sumBy_set (wt s.epoch s.prio) s.invs i v v' hv
+        simp only [mu]; omega
+
+theorem mu_run {s s' : State} {es : List Event} (hw : WF s) (hno : Event.doPrio ∉ es)
+    (h : run s es = some s') : mu s' + es.length ≤ mu s := by
+  induction es generalizing s with
+  | nil => simp [run_nil] at h; subst h; simp
+  | cons e es ih =>
+    rw [run_cons] at h
+    cases h1 : step s e with
+    | none => simp [h1] at h
+    | some s1 =>
+      simp [h1] at h
+      have he : e ≠ .doPrio := fun hh => hno (by simp [hh])
+      have hno' : Event.doPrio ∉ es := fun hh => hno (by simp [hh])
+      have := ih (wf_step hw h1) hno' h
+      have := mu_step hw he h1
+      simp only [List.length_cons]; omega
+
+theorem step_inv_isSome {s : State} {j : Nat} {w : Invo} {a : Act} (hj : s.invs[j]? = some w)
+    (h : (localStep true s.semFree s.prio s.epoch w a).isSome) : (step s (.inv j a)).isSome := by
+  simp only [step, stepGen, hj]
+  cases hl : localStep true s.semFree s.prio s.epoch w a with
+  | none => simp [hl] at h
+  | some p => simp
+
+/-- An invocation that holds a semaphore slot can always move (when `prio = 0`), provided bodies
+return: this is where the "bodies terminate" part of the fairness assumption enters. -/
+theorem holder_enabled {s : State} (hp : s.prio = 0) {j : Nat} {w : Invo}
+    (hj : s.invs[j]? = some w) (hh : holds w.pc = true) : ∃ a, (step s (.inv j a)).isSome := by
+  obtain ⟨pc, cur, orph, canc⟩ := w
+  cases pc <;> simp [holds] at hh
+  · exact ⟨.decideStart, step_inv_isSome hj (by simp [localStep, hp])⟩
+  · exact ⟨.release, step_inv_isSome hj (by simp [localStep])⟩
+  · cases cur
+    · exact ⟨.observeDone, step_inv_isSome hj (by simp [localStep])⟩
+    · exact ⟨.bodyReturns, step_inv_isSome hj (by simp [localStep])⟩
+  · cases cur
+    · exact ⟨.observeDoneAfterCancel, step_inv_isSome hj (by simp [localStep])⟩
+    · exact ⟨.bodyReturns, step_inv_isSome hj (by simp [localStep])⟩
+  · exact ⟨.release, step_inv_isSome hj (by simp [localStep])⟩
+  · exact ⟨.release, step_inv_isSome hj (by simp [localStep])⟩
+
+theorem some_event_enabled {s : State} (hw : WF s) (hcap : 0 < s.cap)
+    (hnot : ∃ v ∈ s.invs, v.pc ≠ .returned) : ∃ e, e ≠ Event.doPrio ∧ (step s e).isSome := by
+  obtain ⟨h1, h2, _⟩ := hw
+  by_cases hp : s.prio = 0
+  · obtain ⟨v, hv, hne⟩ := hnot
+    obtain ⟨i, hi⟩ := List.getElem?_of_mem hv
+    by_cases hh : holds v.pc = true
+    · obtain ⟨a, ha⟩ := holder_enabled hp hi hh
+      exact ⟨.inv i a, by simp, ha⟩
+    · obtain ⟨pc, cur, orph, canc⟩ := v
+      cases pc <;> simp [holds] at hh hne
+      · exact ⟨.inv i .passWait, by simp, step_inv_isSome hi (by simp [localStep, hp])⟩
+      · by_cases hs : 0 < s.semFree
+        · exact ⟨.inv i .acquire, by simp, step_inv_isSome hi (by simp [localStep, hs])⟩
+        · have : 0 < sumBy holdW s.invs := by simp only [holders] at h2; omega
+          obtain ⟨j, w, hj, hwp⟩ := exists_of_sumBy_pos holdW s.invs this
+          have hh' : holds w.pc = true := by
+            unfold holdW at hwp; split at hwp
+            · assumption
+            · omega
+          obtain ⟨a, ha⟩ := holder_enabled hp hj hh'
+          exact ⟨.inv j a, by simp, ha⟩
+      · exact ⟨.inv i .ret, by simp, step_inv_isSome hi (by simp [localStep])⟩
+  · by_cases hs : s.silent < s.prio
+    · exact ⟨.donePrio, by simp, by simp [step, stepGen, hs]⟩
+    · exact ⟨.silenceElapsed, by simp, by
+        have : 0 < s.silent ∧ 0 < s.prio := by omega
+        simp [step, stepGen, this]⟩
+
+/-! ### `bg.pass_wait` is logged after its linearisation point -/
+
+theorem forcePass_eq_passWait (s : State) (i : Nat) (hp : s.prio = 0) :
+    forcePass s i = step s (.inv i .passWait) := by
+  simp only [forcePass, step, stepGen, localStep, hp]
+  cases s.invs[i]? with
+  | none => rfl
+  | some v => by_cases h : v.pc = .waitZero <;> simp [h]
+
+/-- `forcePass i` commutes with every event that is not an action of invocation `i`: applying it
+where the hook logged `bg.pass_wait` gives the same state as taking `passWait` at the earlier
+point where the wait loop read `prioritizedTasks == 0`. -/
+theorem forcePass_comm (s : State) (i : Nat) (e : Event) (he : ∀ a, e ≠ .inv i a) :
+    (forcePass s i).bind (fun s1 => step s1 e) = (step s e).bind (fun s1 => forcePass s1 i) := by
+  cases e with
+  | doPrio =>
+    simp only [forcePass, step, stepGen]
+    cases hi : s.invs[i]? with
+    | none => simp [hi]
+    | some v => by_cases hv : v.pc = .waitZero <;> simp [hv, hi]
+  | donePrio =>
+    simp only [forcePass, step, stepGen]
+    cases hi : s.invs[i]? with
+    | none => by_cases h : s.silent < s.prio <;> simp [h, hi]
+    | some v =>
+      by_cases hv : v.pc = .waitZero <;> by_cases h : s.silent < s.prio <;> simp [hv, h, hi]
+  | silenceElapsed =>
+    simp only [forcePass, step, stepGen]
+    cases hi : s.invs[i]? with
+    | none => by_cases h : 0 < s.silent ∧ 0 < s.prio <;> simp [h, hi]
+    | some v =>
+      by_cases hv : v.pc = .waitZero <;> by_cases h : 0 < s.silent ∧ 0 < s.prio <;>
+        simp [hv, h, hi]
+  | inv j a =>
+    have hij : i ≠ j := fun hh => he a (by rw [hh])
+    have hji : j ≠ i := Ne.symm hij
+    simp only [forcePass, step, stepGen]
+    cases hi : s.invs[i]? with
+    | none =>
+      cases hj : s.invs[j]? with
+      | none => simp
+      | some w =>
+        cases hl : localStep true s.semFree s.prio s.epoch w a with
+        | none => simp [hl]
+        | some p => simp [hl, List.getElem?_set_ne hji, hi]
+    | some v =>
+      by_cases hv : v.pc = .waitZero
+      · cases hj : s.invs[j]? with
+        | none => simp [hv, List.getElem?_set_ne hij, hj]
+        | some w =>
+          cases hl : localStep true s.semFree s.prio s.epoch w a with
+          | none => simp [hv, List.getElem?_set_ne hij, hj, hl]
+          | some p =>
+            simp [hv, List.getElem?_set_ne hij, hj, hl, List.getElem?_set_ne hji, hi,
+              List.set_comm _ _ hij]
+      · cases hj : s.invs[j]? with
+        | none => simp [hv]
+        | some w =>
+          cases hl : localStep true s.semFree s.prio s.epoch w a with
+          | none => simp [hv, hl]
+          | some p => simp [hv, hl, List.getElem?_set_ne hji, hi]
+
 end SV.Task
